@@ -14,6 +14,7 @@ Only property theorems live here; lemmas are in `Lemmas/Layout*.lean`.
 import PdfVerif.Lemmas.LayoutFigures
 import PdfVerif.Lemmas.LayoutHeap
 import PdfVerif.Lemmas.LayoutAnno
+import PdfVerif.Lemmas.LayoutColumns
 
 namespace PdfVerif.Props.C08
 open PdfVerif PdfVerif.Gen.Layout PdfVerif.Layout
@@ -442,6 +443,40 @@ theorem C08_single_root (p : LAParams) (pageBB : BB) (items : List Item) :
         | cons n r ih => intro k; simp [analyzeGroups, ih]
       rw [hlen]
       exact groupTextboxes_single_root (le := le) pageBB _
+
+/-! ### `detect_vertical` (round 6) -/
+
+/-- **Without `detect_vertical` nothing is vertical.**  Every text line (in a box or empty), every text box and
+every group of the hierarchy, at any depth, is of the horizontal / left-to-right class, whatever the glyphs. -/
+theorem C08_detect_vertical (p : LAParams) (pageBB : BB) (hp : WfPage pageBB) (items : List Item)
+    (hdv : p.detect_vertical = false) :
+    (∀ l ∈ linesOf (analyze le p pageBB items), l.vertical = false) ∧
+    (∀ b ∈ boxesOf (analyze le p pageBB items), b.vertical = false) ∧
+    (∀ gs, (analyze le p pageBB items).groups = some gs → ∀ g ∈ gs, g.groupsLRTB) := by
+  have hlines : ∀ l ∈ linesOf (analyze le p pageBB items), l.vertical = false := by
+    intro l hl
+    have := (C08_lines (le := le) p pageBB hp items l hl).vertical_only_if_detected
+    cases hv : l.vertical with
+    | false => rfl
+    | true => rw [this hv] at hdv; exact absurd hdv (by decide)
+  have hboxes : ∀ b ∈ boxesOf (analyze le p pageBB items), b.vertical = false := by
+    intro b hb
+    have hne := (C08_boxes (le := le) p pageBB hp items b hb).1
+    obtain ⟨l, hl⟩ := List.exists_mem_of_ne_nil _ hne
+    rw [← C08_box_uniform (le := le) p pageBB hp items b hb l hl]
+    exact hlines l (by simp only [linesOf, List.mem_append, List.mem_flatMap]; exact Or.inl ⟨b, hb, hl⟩)
+  refine ⟨hlines, hboxes, ?_⟩
+  intro gs hgs g hg
+  by_cases hne : (items.filterMap Item.glyph?).isEmpty = true
+  · simp [analyze, hne] at hgs
+  · have hh := C08_hierarchy (le := le) p pageBB hp items (by simpa using hne)
+    obtain ⟨hleaves, hok⟩ := hh.2 gs hgs
+    cases hbf : p.boxes_flow with
+    | none => rw [hh.1.mpr hbf] at hgs; exact absurd hgs (by simp)
+    | some bf =>
+      refine (groupOK_lrtb (hok bf hbf g hg) ?_).2
+      intro b hb
+      exact hboxes b (by rw [← hleaves]; exact List.mem_flatMap.mpr ⟨g, hg, hb⟩)
 
 /-! ### text -/
 
